@@ -33,23 +33,31 @@ def one(harness, bound, build='plain', budget=120, opts=None, **params):
     return McRun(BIN, harness, params, bound=bound, mode=build, opts=opts, budget=budget)
 
 
-def n2(q, harness, bound, modes, waits=(1, 0), budget=300, **params):
-    """Preemptive exploration on a pool of 2 threads. quick: free_switch_cost=1, i.e. at most `bound` non-default scheduling
-    decisions of any kind (a preemption, or a non-default pick where the running thread blocked or yielded) - a pool of 2 at
-    bound 1 with free switches costs 5000-15000 executions per configuration. thorough: preemption bound with free switches,
-    except for the adaptive+wait combination (stripe path), which keeps free_switch_cost=1 and bound 1: with two stealers
-    spinning on a stripe whose retirement is preempted, free switches at the spin-yields make the schedule space unbounded
-    (each round advances the cursor, so no two states are equal)."""
+SPIN = {'spin_own': 1}
+
+
+def ex(q, harness, bound, modes, n, waits=(1, 0), budget=300, **params):
+    """Preemptive exploration of one call, split by code path:
+      * static / explicit chunk (any wait) and adaptive+nowait (dynamic path): plain preemption bound;
+      * adaptive+wait (stripe path): opt.spin_own=1, so that a stealer retrying a stripe whose retirement was preempted
+        (own fetch_add + failing CAS per round) is recognised as spinning; on pools of >= 2 threads additionally
+        free_switch_cost=1 and bound 1 (two stealers wake each other; with free switches at the spin-yields the schedule
+        space is unbounded because every round advances the cursor).
+    quick, pools of >= 2 threads: free_switch_cost=1 everywhere, i.e. at most `bound` non-default scheduling decisions of any
+    kind (with free switches such a pool costs 5000-15000 executions per configuration at bound 1)."""
     out = []
-    if q:
-        return [one(harness, bound, mode=list(modes), wait=list(waits), opts=ONE, budget=budget, **params)]
+    big = n >= 2
+    base = dict(ONE) if (big and q) else None
     rest = [m for m in modes if m != 'a']
     if rest:
-        out.append(one(harness, bound, mode=rest, wait=list(waits), budget=budget, **params))
+        out.append(one(harness, bound, mode=rest, wait=list(waits), n=n, opts=base, budget=budget, **params))
     if 'a' in modes and 0 in waits:
-        out.append(one(harness, bound, mode='a', wait=0, budget=budget, **params))
+        out.append(one(harness, bound, mode='a', wait=0, n=n, opts=base, budget=budget, **params))
     if 'a' in modes and 1 in waits:
-        out.append(one(harness, 1, mode='a', wait=1, opts=ONE, budget=budget, **params))
+        o = dict(SPIN)
+        if big:
+            o.update(ONE)
+        out.append(one(harness, 1 if big else bound, mode='a', wait=1, n=n, opts=o, budget=budget, **params))
     return out
 
 
@@ -97,17 +105,17 @@ def c12_runs(tier):
         runs.append(batch(t, 'huge', 1, ['a'], waits=(1,), per=40, budget=40))
     # ---- (B) schedules
     M4 = ['s', 'a', 'c1', 'c3']
-    runs.append(one('pf_one', 1, type='i32', n=1, size=[3, 5, 8], mode=M4, wait=[1, 0], budget=200))
+    runs += ex(q, 'pf_one', 1, M4, 1, type='i32', size=[3, 5, 8], budget=200)
     if not q:
-        runs.append(one('pf_one', 2, type='i32', n=1, size=[5, 8], mode=['s', 'a', 'c3'], wait=[1, 0], budget=900))
-    runs += n2(q, 'pf_one', 1, ['s', 'a', 'c3'], type='i32', n=2, size=[5] if q else [5, 8])
-    runs.append(one('pf_one', 1, type='i8', n=1, at='max', size=[5, 8], mode=['s', 'a', 'c3'], wait=[1, 0], g=[1, 3], budget=200))
-    runs.append(one('pf_one', 0, type='i32', n=[1, 2], size=[3, 5, 8], mode=M4, wait=[1, 0], yield_=1, budget=100))
-    runs.append(one('pf_one', 0, type='i32', n=2, size=[5, 8], mode=['s', 'a'], wait=[1, 0], yield_=1, settle=0, cts=1, budget=100))
+        runs += ex(q, 'pf_one', 2, ['s', 'a', 'c3'], 1, type='i32', size=[5, 8], budget=900)
+    runs += ex(q, 'pf_one', 1, ['s', 'a', 'c3'], 2, type='i32', size=[5] if q else [5, 8])
+    runs += ex(q, 'pf_one', 1, ['s', 'a', 'c3'], 1, type='i8', at='max', size=[5, 8], g=[1, 3], budget=200)
+    runs.append(one('pf_one', 0, type='i32', n=[1, 2], size=[3, 5] if q else [3, 5, 8], mode=['s', 'a', 'c3'] if q else M4, wait=[1, 0], yield_=1, budget=150 if q else 400))
+    runs.append(one('pf_one', 0, type='i32', n=2, size=[5] if q else [5, 8], mode=['s', 'a'], wait=[1, 0], yield_=1, settle=0, cts=1, budget=150))
     # the 64-bit ranges ending at the type's maximum (the stripe cursor has the index type's own width there)
     for t in ('i64', 'u64'):
-        runs.append(one('pf_one', 1 if q else 2, type=t, n=1, at='max', off=[0, 1], size=[3, 4, 5, 8], mode=['a', 's', 'c3'], wait=[1, 0], budget=200 if q else 600))
-        runs += n2(q, 'pf_one', 1, ['a'], waits=(1,), type=t, n=2, at='max', size=[4, 5], budget=200)
+        runs += ex(q, 'pf_one', 1 if q else 2, ['a', 's', 'c3'], 1, type=t, at='max', off=[0, 1], size=[3, 4, 5, 8], budget=200 if q else 600)
+        runs += ex(q, 'pf_one', 1, ['a'], 2, waits=(1,), type=t, at='max', size=[4, 5], budget=200)
     # sanitizer legs
     # sanitizer legs are kept to a handful of executions: a hand-off between real threads costs ~1 s in these builds when the machine is loaded
     runs.append(batch('i16', 'edge', 1, ['s', 'a'], waits=(1,), mode='asan', budget=150))
@@ -157,9 +165,9 @@ def c13_runs(tier):
         runs.append(batch('i8', 'sz12', 2, ['s', 'a'], gs=(2, 3, 7), check=13, budget=300))
     # schedules: bound 1 on g in {2,3} (2 in thorough for g=2), free-switch exploration of the body orders
     b = 1 if q else 2
-    runs.append(one('pf_one', b, type='i32', check=13, n=1, g=2, off=[0, 1], size=[5, 7], mode=['s', 'a'], wait=[1, 0], budget=200 if q else 900))
-    runs.append(one('pf_one', 1, type='i32', check=13, n=1, g=3, off=[0, 1, 2], size=[7, 10], mode=['s', 'a'], wait=[1, 0], budget=300))
-    runs += n2(q, 'pf_one', 1, ['s', 'a'], type='i32', check=13, n=2, g=2, off=[1] if q else [0, 1], size=[9])
+    runs += ex(q, 'pf_one', b, ['s', 'a'], 1, type='i32', check=13, g=2, off=[0, 1], size=[5, 7], budget=200 if q else 900)
+    runs += ex(q, 'pf_one', 1, ['s', 'a'], 1, type='i32', check=13, g=3, off=[0, 1, 2], size=[7, 10], budget=300)
+    runs += ex(q, 'pf_one', 1, ['s', 'a'], 2, type='i32', check=13, g=2, off=[1] if q else [0, 1], size=[9])
     runs.append(one('pf_one', 0, type='i32', check=13, n=[1, 2], g=[2, 3], off=[0, 1, 2], size=[7, 10, 13], mode=['s', 'a'], wait=[1, 0], yield_=1, budget=200))
     runs.append(McRun(BIN, 'pf_one', {'type': 'i32', 'check': 13, 'n': 2, 'g': 2, 'off': 0, 'size': 9, 'mode': 's', 'wait': 0, 'yield': 1}, bound=0, mode='tsan', budget=100))
     runs.append(batch('i32', 'gran', 2, ['s', 'a'], gs=(2, 3), check=13, mode='asan', budget=100))
@@ -186,13 +194,13 @@ def c14_runs(tier):
     S, G = [4, 5, 7], [1, 2, 4]
     M = ['s', 'a', 'c2']
     # preemptive exploration
-    runs.append(one('pf_state', 1, cont='v', n=1, size=S, g=G, mode=M, wait=[1, 0], budget=300))
-    runs += n2(q, 'pf_state', 1, ['s', 'a'] if q else M, cont='v', n=2, size=5, g=2, budget=400)
+    runs += ex(q, 'pf_state', 1, M, 1, cont='v', size=S, g=G, budget=300)
+    runs += ex(q, 'pf_state', 1, ['s', 'a'] if q else M, 2, cont='v', size=5, g=2, budget=400)
     if not q:
         for c in ('l', 'd'):
-            runs.append(one('pf_state', 1, cont=c, n=1, size=S, g=G, mode=M, wait=[1, 0], reuse=1, pre=2, budget=300))
-        runs.append(one('pf_state', 2, cont='v', n=1, size=5, g=2, mode=['s', 'a'], wait=[1, 0], budget=900))
-        runs += n2(q, 'pf_state', 1, ['s', 'a'], cont='v', n=2, size=7, g=[1, 4], budget=400)
+            runs += ex(q, 'pf_state', 1, M, 1, cont=c, size=S, g=G, reuse=1, pre=2, budget=300)
+        runs += ex(q, 'pf_state', 2, ['s', 'a'], 1, cont='v', size=5, g=2, budget=900)
+        runs += ex(q, 'pf_state', 1, ['s', 'a'], 2, cont='v', size=7, g=[1, 4], budget=400)
     # free-switch exploration (every order of the bodies), all option combinations
     runs.append(one('pf_state', 0, cont='v', n=2, size=[5, 7] if q else S, g=G, mode=M, wait=[1, 0], yield_=1, budget=300))
     for c in ('v', 'l', 'd'):
@@ -258,17 +266,18 @@ def c48_runs(tier):
     # every order of the bodies (free switches): parallel_for
     runs.append(one('pf_one', 0, type='i32', check=48, n=1, mt=[0, 1, 2, 3], mode=M, wait=[1, 0], g=[1, 2], size=[4, 7], yield_=1, budget=100))
     runs.append(one('pf_one', 0, type='i32', check=48, n=2, mt=[0, 1, 2, 3], mode=M, wait=[1, 0], g=[1, 2], size=[7] if q else [4, 7], yield_=1, budget=300))
-    runs.append(one('pf_one', 1, type='i32', check=48, n=3, mt=[2, 3, 4], mode=['s', 'a'] if q else M, wait=[1, 0], g=2 if q else [1, 2], size=7, yield_=1, opts=ONE, budget=300))
+    runs.append(one('pf_one', 1, type='i32', check=48, n=3, mt=[2, 3, 4], mode=['s', 'c2'], wait=[1, 0], g=2 if q else [1, 2], size=7, yield_=1, opts=ONE, budget=300))
+    runs.append(one('pf_one', 1, type='i32', check=48, n=3, mt=[2, 3, 4], mode='a', wait=[1, 0], g=2 if q else [1, 2], size=7, yield_=1, opts=dict(ONE, spin_own=1), budget=300))
     runs.append(one('pf_state', 0, check=48, cont='v', n=2, mt=[1, 2, 3], mode=M, wait=[1, 0], g=2, size=7, yield_=1, budget=200))
     # every order of the applications: for_each
     runs.append(one('fe_one', 0, check=48, n=[1, 2], cont=['v', 'l', 'f'], cnt=[4, 7], mt=[0, 1, 2, 3], wait=[1, 0], api='n', yield_=1, budget=200))
     runs.append(one('fe_one', 1, check=48, n=3, cont=['v', 'f'], cnt=7, mt=[2, 3, 4], wait=[1, 0], api='n', yield_=1, opts=ONE, budget=300))
     # preemptions
-    runs += n2(q, 'pf_one', 1, ['s', 'a'], type='i32', check=48, n=2, mt=2, g=[1, 2], size=5)
+    runs += ex(q, 'pf_one', 1, ['s', 'a'], 2, type='i32', check=48, mt=2, g=[1, 2], size=5)
     runs.append(one('fe_one', 1, check=48, n=2, cont='v', cnt=4, mt=2, wait=[1, 0], api='n', opts=ONE if q else None, budget=300))
     if not q:
         runs.append(one('pf_one', 1, type='i32', check=48, n=2, mt=[2, 3], mode=['c2'], wait=[1, 0], size=5, budget=300))
-        runs += n2(q, 'pf_one', 1, ['s', 'a'], type='i32', check=48, n=2, mt=3, g=[1, 2], size=7)
+        runs += ex(q, 'pf_one', 1, ['s', 'a'], 2, type='i32', check=48, mt=3, g=[1, 2], size=7)
         runs.append(one('pf_one', 2, type='i32', check=48, n=2, mt=2, mode='s', wait=0, g=2, size=5, budget=900))
         runs.append(one('fe_one', 1, check=48, n=2, cont=['l', 'f'], cnt=4, mt=2, wait=[1, 0], api='n', budget=300))
         runs.append(one('pf_one', 0, type='i32', check=48, n=2, mt=[2, 3], mode=M, wait=[1, 0], g=[1, 2], size=7, yield_=1, settle=0, cts=1, budget=200))
